@@ -622,3 +622,21 @@ impl Bnf {
         o
     }
 }
+
+impl GrammarSpec {
+    /// Same grammar with all disambiguation meta-data removed (used for "raw" tables).
+    pub fn without_meta(&self) -> GrammarSpec {
+        let mut s = self.clone();
+        for r in s.rules.iter_mut() {
+            r.meta = Meta::default();
+            for a in r.alts.iter_mut() {
+                a.meta = Meta::default();
+            }
+        }
+        for t in s.terms.iter_mut() {
+            t.assoc = AssocKw::None;
+            t.prio = None;
+        }
+        s
+    }
+}
